@@ -229,7 +229,7 @@ def handleI (s : Slave) (i : Nat) (buf : List Nat) : Slave × Bool :=
 /-- `handleMessage`: false = close the connection -/
 def handleMessage (s : Slave) (i : Nat) (buf : List Nat) : Slave × Bool :=
   let n := buf.length
-  if n < 3 then (s, false)
+  if n < 6 then (s, false)
   else if buf.getD 0 0 != 0x68 then (s, false)
   else if buf.getD 1 0 != n - 2 then (s, false)
   else
